@@ -68,6 +68,12 @@ PROPS = {
                       "tlx/thread_pool.cpp", "tlx/thread_pool.hpp", "tlx/multi_timer.cpp", "tlx/logger/core.cpp", "tlx/die/core.cpp"],
                 stub=["std::thread", "std::mutex", "std::condition_variable", "std::atomic", "std::minstd_rand (seeded from the run, not from a heap address)",
                       "std::thread::hardware_concurrency (= worker count of the run)"]),
+    "C16": dict(harness="c16_ring", concurrent=True, single_task=True,
+                runs=dict(quick=dict(plain=200000, asan=40000),
+                          thorough=dict(plain=4000000, asan=800000)),
+                real=["tlx/container/ring_buffer.hpp", "tlx/container/simple_vector.hpp"],
+                stub=["allocator (sim::Alloc as the Allocator argument / class-level operator new[] of the element type): seeded recycling, poisoning, quarantine, canaries, ledger",
+                      "element type (lifetime ledger, heap-owning)"]),
 }
 
 SIM_NAMES = ["strategy", "param", "pct_k", "spurious_permille", "spurious_budget", "notify_choice",
@@ -199,7 +205,7 @@ class Agg:
         self.failures = []
         self.lock = threading.Lock()
 
-    def add(self, flavour, rec, concurrent):
+    def add(self, flavour, rec, concurrent, single_task=False):
         with self.lock:
             self.n[flavour] += 1
             if concurrent:
@@ -218,7 +224,10 @@ class Agg:
                 self.threads[rec.get("thr", 0)] += 1
                 fp = int(rec.get("fp", "0"), 16)
                 self.fps_all.add(fp)
-                if rec.get("thr", 0) >= 2 and rec.get("pre", 0) >= 1 and rec.get("sync", 0) >= 2:
+                if single_task:
+                    if rec.get("f", {}).get("alloc_recycle", 0) >= 1 and rec.get("sync", 0) >= 8:
+                        self.fps.add(fp)
+                elif rec.get("thr", 0) >= 2 and rec.get("pre", 0) >= 1 and rec.get("sync", 0) >= 2:
                     self.fps.add(fp)
             else:
                 fp = int(rec.get("fp", "0"), 16) if "fp" in rec else None
@@ -270,7 +279,7 @@ def run_batch(prop, spec, tier, seed, agg):
                 done = 0
                 for r in recs:
                     finish_record(r, rc, err)
-                    agg.add(flavour, r, spec["concurrent"])
+                    agg.add(flavour, r, spec["concurrent"], spec.get("single_task", False))
                     done = r["i"] - first + 1
                 if rc == 0:
                     break
@@ -318,7 +327,7 @@ def tmp_name(suffix):
         return os.path.join(TMP, "t%d_%d%s" % (os.getpid(), _tmp_counter[0], suffix))
 
 
-def run_replay(harness, flavour, state, cpu=None, seed=None):
+def run_replay(harness, flavour, state, cpu=None, seed=None, watchdog=0):
     """Execute an explicit (cfg, sim, ops, choices) state in a fresh process.
     seed != None: explicit workload, decisions re-sampled from that seed."""
     path = tmp_name(".replay")
@@ -326,7 +335,7 @@ def run_replay(harness, flavour, state, cpu=None, seed=None):
         seed = state.get("seed")          # decisions unknown (the run dies without a record): re-derive from the run seed
     write_replay_text(path, state["cfg"], state["sim"], state["ops"], state.get("choices") or [], seed)
     try:
-        recs, rc, err = run_worker(harness, flavour, ["--replay", path], cpu, timeout=900)
+        recs, rc, err = run_worker(harness, flavour, ["--replay", path] + (["--watchdog", str(watchdog)] if watchdog else []), cpu, timeout=900)
     finally:
         try:
             os.unlink(path)
@@ -380,6 +389,7 @@ class Shrinker:
         self.h, self.fl, self.state, self.cls = harness, flavour, state, cls
         self.deadline, self.concurrent = deadline, concurrent
         self.tests = 0
+        self.watchdog = 20      # seconds without any progress while re-executing a candidate
 
     def fails(self, r):
         return (not r.get("ok")) and r.get("cls") == self.cls
@@ -397,7 +407,7 @@ class Shrinker:
         def run(v, cpu):
             kind, seed = v
             s2 = st if kind != "none" else dict(st, choices=[])
-            return run_replay(self.h, self.fl, s2, cpu, seed)
+            return run_replay(self.h, self.fl, s2, cpu, seed, watchdog=self.watchdog)
 
         res = parallel_map(variants, run)
         self.tests += len(variants)
@@ -422,7 +432,7 @@ class Shrinker:
             cands = [items[:s] + items[s + chunk:] for s in range(0, len(items), chunk)]
             hit = None
             if explicit_only:
-                res = parallel_map(cands, lambda c, cpu: run_replay(self.h, self.fl, dict(self.state, **{key: c}), cpu))
+                res = parallel_map(cands, lambda c, cpu: run_replay(self.h, self.fl, dict(self.state, **{key: c}), cpu, watchdog=self.watchdog))
                 self.tests += len(cands)
                 for c, r in zip(cands, res):
                     if self.fails(r):
@@ -612,7 +622,7 @@ def handle_failures(prop, spec, seed, tier, agg, known):
                 (prop, flavour, r0["i"], cls, chk.get("cls")))
             fault = True
             continue
-        sh = Shrinker(harness, flavour, state, cls, min(t_end, time.time() + per_class), spec["concurrent"])
+        sh = Shrinker(harness, flavour, state, cls, min(t_end, time.time() + per_class), spec["concurrent"] and not spec.get("single_task"))
         state = sh.run()
         log("shrunk %s: ops %d -> %d, non-default decisions %d -> %d (%d re-executions)" %
             (cls, len(full.get("ops", [])), len(state["ops"]), len(full.get("choices", [])), len(state["choices"] or []), sh.tests))
@@ -723,10 +733,11 @@ def main():
                   "under the deterministic scheduler. distinct = 64-bit fingerprint of the sequence (thread, sync-op kind, "
                   "object ordinal) of all synchronisation operations executed; non-trivial = >=2 simulated threads, >=2 sync "
                   "operations and >=1 preemptive switch away from a still-enabled thread."
-                  if spec["concurrent"] else
-                  "one evaluation = one seeded operation history executed against the real container with the simulated allocator "
-                  "environment; distinct = fingerprint of the (operation, outcome class, allocator event) sequence; non-trivial = "
-                  "at least one recycled block and at least 5 operations."),
+                  if not spec.get("single_task") else
+                  "one evaluation = one seeded operation history executed against the real container inside the simulator's allocator / "
+                  "element-lifetime environment (single task: no schedule). distinct = 64-bit fingerprint of the sequence of (operation, "
+                  "resulting size) and allocator events (fresh / recycled / released, block size); non-trivial = at least one recycled "
+                  "block (a seeded environment decision fired) and at least 8 fingerprinted events."),
             samples=samples or [dict(note="no passing sample captured")],
             runs_per_flavour=dict(agg.n),
             distinct_fingerprints_all=len(agg.fps_all),
